@@ -1267,3 +1267,38 @@ def krige_cond(ctx, kind, norm, cls):
         gm = _quiet(krig.get_mean)
         ctx.ensure("get_mean=denormalize(mean)", ctx.eq(gm, dn(mean_at([0.0], 0))))
         ctx.ensure("get_mean(post_process=False)=0", ctx.eq(_quiet(krig.get_mean, False), 0))
+
+
+@contract(P, "Normalizer.fit[skip]/skipped-parameters-untouched", params={"skip": ["lmbda", "shift"]},
+          functions=["normalizer/base.py:Normalizer.fit"], bounded="n=2 data points; BoxCoxShift (the two-parameter normalizer)")
+def fit_skip(ctx, skip):
+    """fit(data, skip=[p]): p keeps its value, the other parameter receives the optimiser's result,
+    and the objective varies only the non-skipped parameter"""
+    lm0, sh0 = ctx.real("lmbda0", lo=0.3, hi=1.5), ctx.real("shift0", lo=0.5, hi=2.0)
+    norm = gn.BoxCoxShift(lmbda=lm0, shift=sh0)
+    xs = [ctx.real("x%d" % i, lo=0.5, hi=3.0) for i in range(2)]
+    for x in xs:
+        ctx.require(ctx.gt(x + sh0, 0))
+    fitted = "shift" if skip == "lmbda" else "lmbda"
+    xopt = ctx.real("opt")
+    fake = _FakeOpt([xopt])
+    real_spo = nbase.spo
+    nbase.spo = fake
+    try:
+        with np.errstate(all="ignore"):
+            res = _quiet(norm.fit, arr(ctx, xs), skip=[skip])
+    finally:
+        nbase.spo = real_spo
+    ctx.ensure("optimiser=minimize_scalar", fake.seen.get("which") == "minimize_scalar")
+    ctx.ensure("skipped-parameter-kept", ctx.eq(getattr(norm, skip), lm0 if skip == "lmbda" else sh0))
+    ctx.ensure("fitted-parameter=optimum", ctx.eq(getattr(norm, fitted), xopt))
+    ctx.ensure("returned-dict=state-after-fit", ctx.And(fitted in res, ctx.eq(res[fitted], xopt),
+                                                        *[ctx.eq(v, getattr(norm, k)) for k, v in res.items()]))
+    # the objective writes its argument into the fitted parameter only
+    t = ctx.real("trial", lo=0.4, hi=1.6)
+    ctx.require(ctx.gt(xs[0] + t, 0) if fitted == "shift" else ctx.true())
+    ctx.require(ctx.gt(xs[1] + t, 0) if fitted == "shift" else ctx.true())
+    with np.errstate(all="ignore"):
+        _quiet(fake.seen["fun"], t, *fake.seen["args"])
+    ctx.ensure("objective-sets-fitted-parameter-only",
+               ctx.And(ctx.eq(getattr(norm, fitted), t), ctx.eq(getattr(norm, skip), lm0 if skip == "lmbda" else sh0)))
